@@ -37,6 +37,7 @@ import (
 	"strconv"
 	"strings"
 	"sync"
+	"sync/atomic"
 	"time"
 
 	"github.com/alibaba/RedisShake/pkg/libs/log"
@@ -836,9 +837,17 @@ func c16Quiet() {
 	})
 }
 
-const c16Timeout = 20 * time.Second
+const c16TimeoutFull = 20 * time.Second
+
+// Once a few cases have hung (a mutated receiver waiting for replies that never come, say) the verdict is
+// settled; the remaining cases get a short deadline so that the whole check does not wait 20 s per case.
+var c16Hung int32
 
 func c16RunOne(c *c16Case) string {
+	c16Timeout := c16TimeoutFull
+	if atomic.LoadInt32(&c16Hung) >= 3 {
+		c16Timeout = 4 * time.Second
+	}
 	src := newC16Source(c)
 	tg := newC16Target(c)
 	dl := time.Now().Add(c16Timeout)
@@ -865,6 +874,7 @@ func c16RunOne(c *c16Case) string {
 	status := st(out.FetcherAbort) + st(out.WriterAbort) + st(out.ReceiverAbort)
 	if out.TimedOut {
 		status += "T"
+		atomic.AddInt32(&c16Hung, 1)
 	}
 	closed := 0
 	if out.Closed {
